@@ -56,34 +56,52 @@ type c11Meta struct {
 	bin      []byte
 	reqK     string
 	reqV     string
+	padBin   bool // the peer renders -Bin values with base64 padding
+	// binInUnion: also decode the -Bin value found in error metadata (unary harness only: symbolic base64 decoding is costly)
+	binInUnion bool
 }
 
-func c11Symbolic() c11Meta {
+func c11Symbolic(padded ...bool) c11Meta {
+	pad := false
+	if len(padded) > 0 && padded[0] {
+		pad = nondetBool("paddedBin")
+	}
 	return c11Meta{
 		hk: c11Key("X-H", "hk"), tk: c11FreeKey("tk"),
 		hv1: c11Val("hv1", 2), hv2: c11Val("hv2", 1), tv: c11Val("tv", 2),
 		bin:  nondetBytes("bin", 2),
 		reqK: c11Key("X-R", "rk"), reqV: c11Val("rv", 2),
+		padBin: pad, binInUnion: len(padded) > 0 && padded[0],
 	}
 }
 
 func (m c11Meta) setOn(h, t http.Header) {
 	h.Add(m.hk, m.hv1)
 	h.Add(m.hk, m.hv2)
-	h.Set("X-B-Bin", EncodeBinaryHeader(m.bin))
+	bin := EncodeBinaryHeader(m.bin)
+	if m.padBin {
+		for len(bin)%4 != 0 {
+			bin += "="
+		}
+	}
+	h.Set("X-B-Bin", bin)
 	t.Set(m.tk, m.tv)
 }
 
 func (m c11Meta) checkSplit(h, t http.Header) {
 	check(sameValues(h.Values(m.hk), m.hv1, m.hv2), "response headers arrive under headers with values and order preserved")
 	b, err := DecodeBinaryHeader(h.Get("X-B-Bin"))
-	check(err == nil && bytesEq(b, m.bin), "binary header values arrive unchanged")
+	check(err == nil && bytesEq(b, m.bin), "binary header values arrive unchanged (padded or unpadded rendering)")
 	check(sameValues(t.Values(m.tk), m.tv), "response trailers arrive under trailers")
 }
 
 func (m c11Meta) checkUnion(all http.Header, what string) {
 	check(sameValues(all.Values(m.hk), m.hv1, m.hv2), what+": header values are all present, in order")
 	check(sameValues(all.Values(m.tk), m.tv), what+": trailer values are all present")
+	if m.binInUnion {
+		b, err := DecodeBinaryHeader(all.Get("X-B-Bin"))
+		check(err == nil && bytesEq(b, m.bin), what+": binary values arrive unchanged (padded or unpadded rendering)")
+	}
 }
 
 // HarnessC11Unary: unary calls, success and failure, three protocols.
@@ -92,7 +110,7 @@ func (m c11Meta) checkUnion(all http.Header, what string) {
 func HarnessC11Unary() {
 	proto := nondetChoice("proto", 3)
 	fail := nondetBool("fail")
-	m := c11Symbolic()
+	m := c11Symbolic(true)
 	var seenReq []string
 	handler := NewUnaryHandler("/pkg.Svc/Method", func(ctx context.Context, req *Request[[]byte]) (*Response[[]byte], error) {
 		seenReq = req.Header().Values(m.reqK)
